@@ -113,8 +113,18 @@ def cat_same(a, b):
     return a.base == b.base and same(a.feature, b.feature)
 
 
+def binds_to(P, f, g):
+    """a comparison of P binds the variable triple f to g: f is the side that subsumes the other (the side of x is asked first)"""
+    return variable(f) and any((same(f, p) and same(g, q) and subsumes(f, g)) or
+                               (same(g, p) and same(f, q) and not subsumes(g, f) and subsumes(f, g)) for p, q in P)
+
+
+def bound(P, f):
+    return variable(f) and any((same(f, p) and subsumes(f, q)) or (same(f, q) and not subsumes(p, f) and subsumes(f, p)) for p, q in P)
+
+
 def inst(P, c, c2):
-    """c2 is c with variable triples replaced, as a whole, by a triple they were compared with and subsume"""
+    """c2 is c where every variable triple some comparison binds is replaced, as a whole, by a triple it is bound to; the rest is kept"""
     if is_fun(c) != is_fun(c2):
         return False
     if is_fun(c):
@@ -122,9 +132,7 @@ def inst(P, c, c2):
     if c.base != c2.base:
         return False
     f, g = c.feature, c2.feature
-    if same(f, g):
-        return True
-    return variable(f) and subsumes(f, g) and any((same(f, p) and same(g, q)) or (same(f, q) and same(g, p)) for p, q in P)
+    return binds_to(P, f, g) if bound(P, f) else same(f, g)
 
 
 def unwrap(c, n):
